@@ -123,7 +123,7 @@ DEFAULT_WEIGHTS = {
 }
 
 PROP_WEIGHTS = {
-    "C01": {},
+    "C01": {"put_revert": 3},
     "C02": {"partial": 3, "get": 3, "propfind": 3, "multiget": 3, "query": 2, "sync": 2, "proppatch": 4, "put_over": 12},
     "C03": {"put_cond": 14, "delete_cond": 8, "get_cond": 6, "put_over": 10, "post": 1, "mkcol": 0.5, "mkcalendar": 0.5},
     "C06": {"put_recreate": 6, "put_uidclash": 10, "put_over": 10, "put_new": 10, "delete": 7, "restart": 2, "evict": 3, "mkcol": 0.3, "proppatch": 0.5},
